@@ -21,6 +21,37 @@ def short(t):
     return k
 
 
+def type_leaves(t):
+    k = t["k"]
+    if k in ("opt", "list"):
+        return type_leaves(t["t"])
+    if k in ("struct", "union"):
+        out = set()
+        for f in t["fields"]:
+            out |= type_leaves(f["t"])
+        return out
+    return {k}
+
+
+def value_leaves(v):
+    k = v["k"]
+    if k == "some":
+        return value_leaves(v["v"])
+    if k in ("none", "unit"):
+        return set()
+    if k == "structv":
+        out = set()
+        for f in v["fields"]:
+            out |= value_leaves(f["v"])
+        return out
+    if k == "listv":
+        out = set()
+        for x in v["vs"]:
+            out |= value_leaves(x)
+        return out
+    return {k}
+
+
 def lattice_part(tier, rep, cov):
     n, rich = (3, "FALSE") if tier == "quick" else (3, "TRUE")
     consts = {"N": n, "Rich": rich}
@@ -46,7 +77,13 @@ def lattice_part(tier, rep, cov):
         elif judge.endswith("Cross"):
             key = f"lattice/{judge}"
         elif o["a"]["k"] in COMPOSITE or o["b"]["k"] in COMPOSITE:
-            key = f"lattice/{judge}/composite"
+            # native: some witness value is made of leaves of the kinds the two types are made of (the failure does not go
+            # through the cross-variant arm of `contains`); cross: every witness has a leaf of another kind
+            wit = [values[k] for k in range(nvals) if o.get("ca") and ((o["ca"][k] or o["cb0"][k]) and not o["cu"][k] or (o["sub"] and o["ca"][k] and not o["cb"][k])
+                                                                        or (o["ca"][k] and o["cb"][k] and not o.get("ci", o["cu"])[k]))]
+            tl = type_leaves(o["a"]) | type_leaves(o["b"])
+            native = any(value_leaves(v) <= tl for v in wit) if wit else True
+            key = f"lattice/{judge}/composite/{o['a']['k']}/{o['b']['k']}/{'native' if native else 'cross'}"
         else:
             key = f"lattice/{judge}/{o['a']['k']}/{o['b']['k']}"
         sample = {"engine": "dt-lattice", "a": short(o["a"]) if "a" in o else None, "b": short(o["b"]) if "b" in o else None,
